@@ -2,7 +2,11 @@
    Graceful.v) on the histories / forced schedules the harness ran on live peers.
 
    history mode   input  (shist (EV ...))
-     EV = (sacc nID sok|srej) | (sdial nID sok|srej) | (ssetid nSESS nID) | (scall nSESS) | (spush nSESS)
+     EV = (sacc|slis|sdial nID (OUT ...))   one outcome per accept/dial plugin of the peer, in container order:
+                                            OUT = sok | (sstat zCODE) | (spanic sKIND);
+                                            own result ((zCODE|snone) (nCALLS ...)): code of the status ServeConn / Dial
+                                            returned (none on the listener path), calls per plugin
+        | (sacc nID sok|srej) | (sdial nID sok|srej) | (ssetid nSESS nID) | (scall nSESS) | (spush nSESS)
         | (sclose nSESS) | (srclose nSESS) | (scut nSESS) | (spclose) | (srcall nSESS)
      observed = one entry per event:
         (RES ((sh|su sfired|squiet nHOOKS nSTARTS) | (srej nHOOKS) ...)   per session
@@ -12,7 +16,7 @@
      observed = ((per-release position ...) FINAL)                                   *)
 From Coq Require Import Strings.String Strings.Byte.
 From Coq Require Import List Arith NArith ZArith Bool Lia.
-From Verif Require Import Base.Bytes Base.Val Model.Lifecycle Model.CallLife Model.Graceful.
+From Verif Require Import Base.Bytes Base.Val Model.Lifecycle Model.CallLife Model.Graceful Model.AcceptHooks.
 Import ListNotations.
 
 (* ---- running a peer to quiescence: first enabled internal event of the first session
@@ -107,9 +111,44 @@ Definition get_sess (p : peer) (n : nat) : option sess := nth_error (sessions p)
 
 Definition live (s : sess) : bool := status_eqb (st s) Ok.
 
+(* outcomes of the accept / dial plugins *)
+Definition dec_out (v : val) : option hout :=
+  match v with
+  | VS k => if bytes_eqb k (str "ok") then Some HkOk else None
+  | VL [VS k; VZ c] => if bytes_eqb k (str "stat") then Some (HkStat c) else None
+  | VL [VS k; VS _] => if bytes_eqb k (str "panic") then Some HkPanic else None
+  | _ => None
+  end.
+
+Fixpoint dec_outs (l : list val) : option (list hout) :=
+  match l with
+  | [] => Some []
+  | v :: r => match dec_out v, dec_outs r with Some o, Some t => Some (o :: t) | _, _ => None end
+  end.
+
+(* calls per plugin: the first [hooks_ran] plugins once, the others not at all *)
+Definition runs_val (pc : Z) (os : list hout) : val :=
+  let n := hooks_ran true pc os in
+  VL (map (fun i => VN (if Nat.ltb i n then 1 else 0)) (seq 0 (length os))).
+
 (* one harness-level event; returns the new peer and the event's own result *)
 Definition do_event (p : peer) (ev : val) : option (peer * val) :=
   match ev with
+  | VL [VS k; VN id; VL outs] =>
+      match dec_outs outs with
+      | None => None
+      | Some os =>
+          if bytes_eqb k (str "acc") then
+            Some (pdo p (PAccept id (verdict true code_accept_panic os)),
+                  VL [VZ (accept_result true os); runs_val code_accept_panic os])
+          else if bytes_eqb k (str "lis") then
+            Some (pdo p (PAccept id (verdict true code_accept_panic os)),
+                  VL [vsym "none"; runs_val code_accept_panic os])
+          else if bytes_eqb k (str "dial") then
+            Some (pdo p (PDial id (verdict true code_dial_panic os)),
+                  VL [VZ (dial_result true os); runs_val code_dial_panic os])
+          else None
+      end
   | VL [VS k; VN id; VS okv] =>
       if bytes_eqb k (str "acc") then
         Some (pdo p (PAccept id (bytes_eqb okv (str "ok"))), vsym "none")
@@ -191,6 +230,7 @@ Fixpoint mem_N (x : N) (l : list N) : bool :=
 Definition ids_add (ids : list N) (ev : val) : list N :=
   match ev with
   | VL [VS _; VN id; VS _] => if mem_N id ids then ids else ids ++ [id]
+  | VL [VS _; VN id; VL _] => if mem_N id ids then ids else ids ++ [id]
   | VL [VS k; VN _; VN id] => if bytes_eqb k (str "setid") && negb (mem_N id ids) then ids ++ [id] else ids
   | _ => ids
   end.
